@@ -153,7 +153,13 @@ def invalid_config(draw, case):
         twin = copy.deepcopy(nd)
         twin['uses'] = []
         twin.pop('main_part', None)
-        case['files'].append({'name': 'twin', 'fmt': 'json', 'node': twin})
+        own = case['files'][fi]
+        # often a DIFFERENT file with the SAME base name (other directory, or .json vs .yaml)
+        tname = draw(st.sampled_from(['twin', 'other_dir/' + own['name'].split('/')[-1], own['name'].split('/')[-1] + '_twin']))
+        tfmt = draw(st.sampled_from(['json', 'yaml']))
+        if tname == own['name'] and tfmt == own['fmt']:
+            tname = 'other_dir/' + tname
+        case['files'].append({'name': tname, 'fmt': tfmt, 'node': twin})
         ti = len(case['files']) - 1
         users = [(fj, pj, other) for fj, pj, other in _all_nodes(case)
                  if any(u['file'] == fi and u.get('part') == pn for u in other['uses'])]
